@@ -232,7 +232,9 @@ PROPS["C18"] = {
 
 NOT_APPLICABLE = {
     "C05": "not claimed. The algebra clauses (canonical text form, parse/print round trip, delta laws over 256x256 pairs) are pure functions of their input: no schedule, clock or fault for a simulator to decide. "
-           "The remaining clause (parties that replay change notifications converge to the authoritative permissions) is a simulation target, designed in DESIGN.md section 5 (C05), but its tracker clients / proxy topic were not built in the time available",
+           "For the remaining clause (parties that replay change notifications converge to the authoritative permissions) a tracker over the recorded frames of the 'perm' workload was built (harness/c05.go, TestSim_C05, "
+           "not registered): it reports divergences on the unchanged tree, three of which were traced to recorded findings (see known-findings.txt, property C05) while others could not be triaged to the point where "
+           "every alarm is known to be genuine; a check whose alarms are not all understood is not claimed",
     "C19": "not claimed. Query parsing, tag rewriting and tag normalisation are pure functions of one input; the clauses about histories of tag updates and masked/reserved namespaces (DESIGN.md section 5, C19) were not built in the time available",
     "C20": "pure functions of one input (id codecs, name spellings, JSON<->protobuf converters): no schedule, clock, fault, crash point or second party for a simulator to decide; see DESIGN.md section 6",
 }
